@@ -559,6 +559,9 @@ def run(prog, rep, tier):
     rep.floor('COUPLED-shape', 8)
     rep.assumptions += ['block values are NOT decided',
                         'sortedness axioms listed in TRUE_CLAIMS are trusted']
+    from ..flow import check_undefined_attrs
+    rep.rule('ATTR-defined', 'every self.X read names an attribute bound somewhere in the class family')
+    check_undefined_attrs(prog, rep, ['tenpy/linalg/charges.py', 'tenpy/linalg/np_conserved.py'])
     return rep.finish(
         level='other',
         explanation='Cached-claim typestate for Array._qdata_sorted and LegCharge.sorted/bunched, '
